@@ -1,8 +1,19 @@
-"""C29 — no SQL input crashes or hangs the engine.  PARTIAL / level "other": a theorem cannot carry "no panic anywhere";
-this check is the search part of DESIGN §C29: grammar-generated and mutated SQL text through the real
-ExecutionContext::sql under catch_unwind with a per-statement wall-clock limit, one subprocess per batch so that a hang
-or an abort (stack overflow) is attributed to the statement that caused it. Outcome classes Ok / Err / panic / timeout /
-abort; the last three are violations unless the statement's SHAPE falls in a class recorded in known_findings.txt."""
+"""C29 — no SQL input crashes or hangs the engine.  Two parts.
+
+PROOF part (coq/theories/C29, pins in Props/C29.v): a theorem cannot carry "no panic anywhere in 100k lines", but the
+logic cores in which the recorded C29 defects lived are modelled and proved for ALL inputs — the parser nesting guard
+(paren_depth / check_nesting), the integer kernels (+ - * / % unary minus ABS on i32/i64, and the constant folder's own
+implementation on literals), date32_to_naive with chrono's from_num_days_from_ce_opt transcribed and its consumers
+EXTRACT / DATE_TRUNC / DATE_ADD, the join-reorder size score, and (re-exported from C03) the optimizer driver's
+application bound.  Each model is tied to the real code by a correspondence run (harness c29k): generated inputs through
+query_engine::parser::parse_sql / ExecutionContext::sql, outcome classes value / NULL / error / panic compared with the
+model evaluated inside Coq (vlib.coq_eval_list).
+
+SEARCH part (unchanged): grammar-generated and mutated SQL text through the real ExecutionContext::sql under
+catch_unwind with a per-statement wall-clock limit, one subprocess per batch so that a hang or an abort (stack overflow)
+is attributed to the statement that caused it.  Outcome classes Ok / Err / panic / timeout / abort; the last three are
+violations unless the statement's SHAPE falls in a class recorded in known_findings.txt.  The regression corpus
+(witnesses of every defect repaired for C29) runs first."""
 import json, os, re, subprocess, time
 import vlib
 
@@ -214,6 +225,32 @@ DEEP_MAX = {"paren": 2000, "paren_where": 2000, "subquery": 500, "scalar_subquer
             "join_chain": 60, "cte_chain": 200, "func": 500, "cast": 500, "select_items": 5000, "between": 500,
             "values_rows": 5000, "order_keys": 2000, "long_ident": 100000, "long_string": 100000}
 
+# witnesses of the defects repaired for C29 (fix: commits in /repo); they run first on every run
+REGRESSION = [
+    # a61f7e5 parser nesting guard: depth >= 48 never returned
+    ("a61f7e5", "SELECT " + "CAST(" * 48 + "1" + " AS BIGINT)" * 48),
+    ("a61f7e5", "SELECT " + "(" * 48 + "1" + ")" * 48),
+    ("a61f7e5", "SELECT " + "CAST(" * 47 + "1" + " AS BIGINT)" * 47),
+    # 993b9a5 join score of an empty table with statistics, >= 12 relations
+    ("993b9a5", "SELECT count(*) FROM t3 AS j0" + "".join(f" JOIN t3 AS j{i} ON j{i}.k = j{i - 1}.k" for i in range(1, 14))),
+    # 4e93f42 ABS(MIN)
+    ("4e93f42", "SELECT abs(-9223372036854775807 - 1)"), ("4e93f42", "SELECT abs(a) FROM t1"), ("4e93f42", "SELECT abs(x) FROM t2"),
+    # e607feb days + 719163 on Date32 near i32::MAX
+    ("e607feb", "SELECT EXTRACT(YEAR FROM d) FROM t1"), ("e607feb", "SELECT date_trunc('month', d) FROM t1"),
+    ("e607feb", "SELECT date_add('day', 1, d) FROM t1"), ("e607feb", "SELECT date_diff('day', d, d) FROM t1"),
+    # c308f13 constant folder: MIN / -1 and MIN % -1 on literals
+    ("c308f13", "SELECT (0 - 9223372036854775807 - 1) / (0 - 1)"), ("c308f13", "SELECT (0 - 9223372036854775807 - 1) % (0 - 1)"),
+    ("c308f13", "SELECT a FROM t1 WHERE (0 - 9223372036854775807 - 1) % (0 - 1) = 0"),
+    # 54868b4 DATE_ADD with a count chrono cannot represent
+    ("54868b4", "SELECT date_add('day', 9223372036854775807, DATE '2020-01-01')"), ("54868b4", "SELECT date_add('week', 9223372036854775807, DATE '2020-01-01')"),
+    ("54868b4", "SELECT date_add('year', 9223372036854775807, DATE '2020-01-01')"), ("54868b4", "SELECT date_add('month', 4294967297, DATE '2020-01-01')"),
+    ("54868b4", "SELECT date_add('second', 9223372036854775807, CAST(DATE '2020-01-01' AS TIMESTAMP))"),
+    ("54868b4", "SELECT date_add('hour', 9223372036854775807, CAST(DATE '2020-01-01' AS TIMESTAMP))"),
+    # a29b909 DATE_TRUNC('week') on the first days of chrono's range
+    ("a29b909", "SELECT date_trunc('week', CAST(-96465292 AS DATE))"), ("a29b909", "SELECT date_trunc('week', CAST(-96465289 AS DATE))"),
+    ("a29b909", "SELECT date_trunc('week', CAST(CAST(-96465292 AS DATE) AS TIMESTAMP))"),
+]
+
 DIRECTED = [
     "SELECT 9223372036854775807 + 1", "SELECT -9223372036854775808 - 1", "SELECT 9223372036854775807 * 2",
     "SELECT (-9223372036854775807 - 1) / -1", "SELECT (-9223372036854775807 - 1) % -1", "SELECT -(-9223372036854775807 - 1)",
@@ -417,6 +454,8 @@ def gen_statements(ctx):
     rng = ctx.rng
     n_total = ctx.n(3000, 100000)
     stmts = []
+    for commit, s in REGRESSION:
+        stmts.append((f"regression:{commit}", s))
     for s in DIRECTED:
         stmts.append(("directed", s))
     for kind in DEEP_KINDS:
@@ -440,7 +479,8 @@ def gen_statements(ctx):
     return stmts
 
 
-def run(ctx):
+def search(ctx):
+    """the SEARCH part: fills ctx.cov["search"], records violations; returns the number of statements and of ok/err outcomes"""
     ok, log = vlib.build_harness("c29")
     if not ok:
         raise vlib.HarnessBuildError(log)
@@ -450,8 +490,10 @@ def run(ctx):
     results = {}
     t0 = time.time()
     from concurrent.futures import ThreadPoolExecutor
+    reg_ids = [i for i in ids if stmts[i][0].startswith("regression:")]
+    results.update(run_batch(binary, [(i, stmts[i][1]) for i in reg_ids]))       # the regression corpus runs first
     deep_ids = [i for i in ids if stmts[i][0].startswith("deep:")]
-    other = [i for i in ids if not stmts[i][0].startswith("deep:")]
+    other = [i for i in ids if not stmts[i][0].startswith("deep:") and not stmts[i][0].startswith("regression:")]
     batches = [(False, [(i, stmts[i][1]) for i in other[k:k + BATCH]]) for k in range(0, len(other), BATCH)]
     for kind in DEEP_KINDS:          # one batch per shape, sizes increasing
         batches.append((True, [(i, stmts[i][1]) for i in deep_ids if stmts[i][0].split(":")[1] == kind]))
@@ -490,13 +532,14 @@ def run(ctx):
         res = 64 if (ctx.quick and n0 > 1000) else 1
         n, o = find_threshold(binary, kind, n0, lo=max(passing, default=0) + 1, resolution=res)
         thresholds[kind] = {"smallest_failing_n": n, "resolution": res, "outcome": o["outcome"], "detail": o["detail"][:160]}
-    ctx.cov["evaluations"] = len(stmts)
-    ctx.cov["distinct_nontrivial"] = len({s for _, s in stmts if len(s) > 10})
-    ctx.cov["outcome_classes"] = classes
-    ctx.cov["outcomes_by_origin"] = by_origin
-    ctx.cov["deep_nesting_thresholds"] = thresholds
-    ctx.cov["slow_statements_over_2s"] = slow[:10]
-    ctx.cov["input_distribution"] = {"directed": len(DIRECTED), "deep_shapes": len(DEEP_KINDS), "per_statement_limit_ms": TIMEOUT_MS,
+    sc = ctx.cov.setdefault("search", {})
+    sc["evaluations"] = len(stmts)
+    sc["distinct_nontrivial"] = len({s for _, s in stmts if len(s) > 10})
+    sc["outcome_classes"] = classes
+    sc["outcomes_by_origin"] = by_origin
+    sc["deep_nesting_thresholds"] = thresholds
+    sc["slow_statements_over_2s"] = slow[:10]
+    sc["input_distribution"] = {"regression": len(REGRESSION), "directed": len(DIRECTED), "deep_shapes": len(DEEP_KINDS), "per_statement_limit_ms": TIMEOUT_MS,
                                      "thread_stack": "8 MiB statement thread + default tokio workers", "build": "harness dev profile (overflow checks on)",
                                      "wall_engine_s": round(time.time() - t0, 1)}
     for i in ids[:3]:
@@ -512,31 +555,411 @@ def run(ctx):
         if len(ctx.violations) < 6:
             ctx.violation({"kind": f"statement {o['outcome']}", "case": {"sql": sql}, "origin": stmts[i][0], "outcome": o, "class": cls,
                            "nesting_metric": nesting(sql)}, found_input=True)
-    ctx.cov["known_class_hits"] = seen_cls
-    ctx.cov["bad_statements"] = [{"outcome": o["outcome"], "origin": stmts[i][0], "class": classify(stmts[i][1]), "sql": stmts[i][1][:160],
+    sc["known_class_hits"] = seen_cls
+    sc["bad_statements"] = [{"outcome": o["outcome"], "origin": stmts[i][0], "class": classify(stmts[i][1]), "sql": stmts[i][1][:160],
                                   "detail": o["detail"][:120]} for i, o in bad[:80]]
-    ctx.cov["traces_validated_against_impl"] = classes["ok"] + classes["err"]
+    sc["regression_corpus"] = [{"fix": stmts[i][0].split(":")[1], "sql": stmts[i][1][:100], "outcome": results[i]["outcome"]} for i in reg_ids]
+    return len(stmts), classes["ok"] + classes["err"], sc["distinct_nontrivial"]
+
+
+# ================================================================ PROOF part: correspondence of the modelled kernels
+REQ = "From QV Require Import Base.Util C29.Model."
+I64_MIN, I64_MAX = -2 ** 63, 2 ** 63 - 1
+I32_MIN, I32_MAX = -2 ** 31, 2 ** 31 - 1
+DMIN, DMAX = -96465292, 95026236            # chrono's NaiveDate::MIN / MAX as Date32 (theorem C29_date32_to_naive_some)
+OPS = ["+", "-", "*", "/", "%"]             # operator codes 0..4; 5 unary minus; 6 abs (Model.v k_op)
+TRUNC_UNITS = ["day", "week", "month", "quarter", "year", "fortnight"]      # codes 0..4, anything else
+ADD_UNITS = {0: "day", 1: "week", 2: "month", 4: "year"}
+
+
+def lit_fold(n):
+    """an integer as an expression the constant folder folds to a literal (`0 - n`; unary minus is not folded)"""
+    if n >= 0:
+        return str(n)
+    if n == I64_MIN:
+        return "(0 - 9223372036854775807 - 1)"
+    return f"(0 - {-n})"
+
+
+def lit_neg(n):
+    """the same value through the run-time unary-minus kernel"""
+    if n >= 0:
+        return str(n)
+    if n == I64_MIN:
+        return "(-9223372036854775807 - 1)"
+    return f"(-{-n})"
+
+
+def lit_i32(n):
+    return f"CAST({n} AS INT)" if n >= 0 else f"CAST(-{-n} AS INT)"
+
+
+def int_operands(rng, bits, n_random, full):
+    mn, mx = -2 ** (bits - 1), 2 ** (bits - 1) - 1
+    root = 3037000499 if bits == 64 else 46340            # floor(sqrt(MAX))
+    edge = [mn, mn + 1, mx, mx - 1, -1, 0, 1, 2, -2, 7, -7, root, root + 1, -root - 1, 2 ** (bits // 2), -(2 ** (bits // 2 - 1))]
+    if not full:                                          # quick tier: a 9 x 9 grid
+        edge = [mn, mn + 1, mx, -1, 0, 1, -7, root + 1, 2 ** (bits // 2)]
+    pairs = [(x, y) for x in edge for y in edge]
+    for _ in range(n_random):
+        k = rng.random()
+        if k < 0.3:
+            x, y = rng.randint(mn, mx), rng.randint(mn, mx)
+        elif k < 0.5:
+            x, y = rng.randint(mn, mx), rng.choice([-3, -2, -1, 1, 2, 3, 10, -10, 0])
+        elif k < 0.75:                                     # products / sums next to the boundary
+            x = rng.choice([1, -1]) * rng.randint(2, root * 4)
+            y = (mx // x) + rng.choice([-1, 0, 1, 2])
+        else:
+            x = rng.randint(mn, mx)
+            y = rng.choice([mx - x, mn - x, mx - x + 1, mn - x - 1, x, -x if x != mn else 1])
+            y = max(mn, min(mx, y))
+        pairs.append((x, y))
+    return pairs
+
+
+def int_unit(bits, x, y):
+    """one harness call: a one-row table holding the operands, and every statement form of every operator.
+    Returns (harness case, [(judged case, [query indices])...])"""
+    cols = [["a", "i64"], ["b", "i64"]] if bits == 64 else [["a", "i32"], ["b", "i32"]]
+    table = {"name": "t", "cols": cols, "rows": [[x, y]]}
+    queries, judged = [], []
+
+    def add(kind, op, sqls):
+        idx = list(range(len(queries), len(queries) + len(sqls)))
+        queries.extend(sqls)
+        judged.append(({"kernel": "int", "kind": kind, "op": op, "bits": bits, "x": x, "y": y, "tables": [table], "sqls": sqls}, idx))
+    for op, sym in enumerate(OPS):
+        if bits == 64:
+            add("runtime", op, [f"SELECT a {sym} b FROM t", f"SELECT {lit_neg(x)} {sym} {lit_neg(y)}", f"SELECT a {sym} {lit_neg(y)} FROM t"])
+            add("fold", op, [f"SELECT {lit_fold(x)} {sym} {lit_fold(y)}", f"SELECT {lit_fold(x)} {sym} {lit_fold(y)} FROM t"])
+        else:
+            add("runtime", op, [f"SELECT a {sym} b FROM t", f"SELECT {lit_i32(x)} {sym} {lit_i32(y)}", f"SELECT a {sym} {lit_i32(y)} FROM t"])
+            add("widened", op, [f"SELECT a {sym} {lit_neg(y)} FROM t"])       # INT column with a BIGINT literal: coerced to i64
+    lit = lit_neg(x) if bits == 64 else lit_i32(x)
+    add("runtime", 5, ["SELECT -a FROM t", f"SELECT -({lit})"])
+    add("runtime", 6, ["SELECT abs(a) FROM t", f"SELECT abs({lit})"])
+    return {"mode": "sql", "tables": [table], "queries": queries}, judged
+
+
+def date_values(rng, n_random):
+    edge = [I32_MIN, I32_MIN + 1, I32_MAX, I32_MAX - 1, I32_MAX - 719162, I32_MAX - 719163, I32_MAX - 719163 - 365, I32_MAX - 719163 - 364,
+            DMIN - 2, DMIN - 1, DMIN, DMIN + 1, DMIN + 2, DMIN + 3, DMIN + 4, DMIN + 5, DMIN + 6, DMIN + 7, DMIN + 30, DMIN + 365,
+            DMAX + 1, DMAX, DMAX - 1, DMAX - 30, DMAX - 31, DMAX - 364, DMAX - 365, DMAX - 366,
+            -1, 0, 1, 58, 59, 60, 11016, 11017, 19782, 19783, -25509, -25508, -719162, -719163, -719528, -719529, -141427, 2932896, 2932897]
+    out = list(edge)
+    for _ in range(n_random):
+        k = rng.random()
+        if k < 0.4:
+            out.append(rng.randint(-800000, 3000000))
+        elif k < 0.8:
+            out.append(rng.randint(DMIN, DMAX))
+        else:
+            out.append(rng.randint(I32_MIN, I32_MAX))
+    return out
+
+
+ADD_COUNTS = [0, 1, -1, 7, -7, 30, 31, 365, -366, 12, -12, 100000, -100000, I32_MAX, I32_MIN, I32_MAX + 1, I32_MIN - 1, 2 ** 32 - 1, 2 ** 32,
+              2 ** 32 + 1, -(2 ** 32) - 1, 106751991167, 106751991168, -106751991167, -106751991168, 15250284452, 15250284453, -15250284453,
+              768614336404564650, 768614336404564651, -768614336404564651, I64_MAX, I64_MIN, I64_MAX // 7, 306783378, 306783379, 178956970, 178956971]
+
+
+def date_unit(rng, d):
+    table = {"name": "t", "cols": [["d", "date"]], "rows": [[d]]}
+    queries, judged = [], []
+
+    def add(case, sql):
+        judged.append((dict(case, kernel="date", d=d, tables=[table], sqls=[sql]), [len(queries)]))
+        queries.append(sql)
+    for f, name in enumerate(["YEAR", "MONTH", "DAY"]):
+        add({"fn": "extract", "f": f}, f"SELECT EXTRACT({name} FROM d) FROM t")
+    for u, name in enumerate(TRUNC_UNITS):
+        add({"fn": "trunc", "u": u}, f"SELECT date_trunc('{name}', d) FROM t")
+    for u, name in ADD_UNITS.items():
+        vs = [rng.choice(ADD_COUNTS) for _ in range(2)] + [rng.choice([DMAX - d, DMAX - d + 1, DMIN - d, DMIN - d - 1, rng.randint(-3000, 3000)])]
+        for v in vs:
+            v = max(I64_MIN, min(I64_MAX, v))
+            add({"fn": "add", "u": u, "v": v}, f"SELECT date_add('{name}', {lit_neg(v)}, d) FROM t")
+    return {"mode": "sql", "tables": [table], "queries": queries}, judged
+
+
+def guard_strings(rng, n):
+    out = ["", "(", ")", ")(", "'('", "''", "'(''('", '"("(', "`(`(", "--(\n(", "-(", "- -(", "--", "-", "(--)", "(\n--)\n)", "'--'(", "--'\n(", "'\n'(",
+           "SELECT " + "(" * 47 + "1" + ")" * 47, "SELECT " + "(" * 48 + "1" + ")" * 48, "SELECT " + "(" * 47 + "1" + ")" * 47 + "(",
+           "SELECT " + "()" * 100, "SELECT " + "(" * 47 + ")" * 47 + "(" * 47 + ")" * 47, ")" * 60 + "(" * 47, ")" * 60 + "(" * 48,
+           "SELECT '" + "(" * 60 + "'", "SELECT \"" + "(" * 60 + "\"", "SELECT 1 --" + "(" * 60, "SELECT 1 --" + "(" * 60 + "\n" + "(" * 48,
+           "SELECT '" + "(" * 60 + "''" + "(" * 60 + "'" + "(" * 48, "SELECT 'a" + "(" * 48, "SELECT 1 -" + "(" * 48 + "1" + ")" * 48,
+           "SELECT " + "CAST(" * 47 + "1" + " AS BIGINT)" * 47, "SELECT " + "CAST(" * 48 + "1" + " AS BIGINT)" * 48,
+           "SELECT é" + "(" * 48, "SELECT '’" + "(" * 48 + "'", "(" * 47 + "\u0000" + "(", "\r--\r(" + "(" * 47]
+    toks = ["(", "(", "(", ")", ")", "'", "''", '"', "`", "--", "-", "\n", " ", "a", "1", ",", "SELECT ", "é", "\\", "/*", "*/", "\r", "x'", "--\n"]
+    while len(out) < n:
+        k = rng.random()
+        if k < 0.35:        # token soup
+            s = "".join(rng.choice(toks) for _ in range(rng.randint(1, 80)))
+        elif k < 0.8:       # a deep run around the limit with lexical noise inside and around it
+            d = rng.choice([45, 46, 47, 47, 48, 48, 49, 60])
+            body, opened = [], 0
+            while opened < d:
+                r = rng.random()
+                if r < 0.75:
+                    body.append("("); opened += 1
+                elif r < 0.8:
+                    body.append(")"); opened = max(0, opened - 1)
+                elif r < 0.86:
+                    q = rng.choice(["'", '"', "`"])
+                    body.append(q + "".join(rng.choice(["(", ")", "-", "a", q + q, "\n"]) for _ in range(rng.randint(0, 5))) + q)
+                elif r < 0.92:
+                    body.append("--" + "".join(rng.choice(["(", ")", "'", "a", "-"]) for _ in range(rng.randint(0, 5))) + "\n")
+                else:
+                    body.append(rng.choice(["-", "a", " ", "1", "- ", "\n"]))
+            s = rng.choice(["SELECT ", "", "SELECT a FROM t WHERE ", ")" * rng.randint(0, 3)]) + "".join(body) + "1" + ")" * rng.randint(0, d)
+        else:               # an unterminated quote / comment hides a deep run
+            s = "SELECT " + rng.choice(["'", '"', "`", "--", "-- '", "'a''"]) + "(" * rng.choice([47, 48, 70]) + rng.choice(["", "'", "\n", "\n" + "(" * 48])
+        out.append(s)
+    return out
+
+
+def obs_of(result):
+    """outcome class of one statement with a one-row, one-column answer -> Coq `obs` term"""
+    if not isinstance(result, dict):
+        return None
+    if "panic" in result:
+        return "OPanic"
+    if "err" in result:
+        return "OErr"
+    if "ok" in result:
+        rows = result["ok"].get("rows") or []
+        if len(rows) != 1 or len(rows[0]) != 1:
+            return None
+        v = rows[0][0]
+        if v is None:
+            return "ONull"
+        if isinstance(v, list) and len(v) == 2 and v[0] == "d":
+            v = v[1]
+        if isinstance(v, bool) or not isinstance(v, int):
+            return None
+        return f"(OVal {zlit(v)})"
+    return None
+
+
+def zlit(n):
+    return f"({n})" if n < 0 else str(n)
+
+
+def case_term(c, impls):
+    """Coq term [impl == model; impl meets spec; known class] of one judged case; None when the harness gave no usable answer"""
+    if c["kernel"] == "guard":
+        if impls is None:
+            return None
+        cps = "[" + "; ".join(str(ord(ch)) for ch in c["s"]) + "]"
+        return f"chk_guard {cps} {'true' if impls else 'false'}"
+    if any(o is None for o in impls):
+        return None
+    if c["kernel"] == "int":
+        lst = "[" + "; ".join(impls) + "]"
+        if c["kind"] == "fold":
+            return f"chk_lit {c['op']} {zlit(c['x'])} {zlit(c['y'])} {lst}"
+        bits = 64 if c["kind"] == "widened" else c["bits"]
+        return f"chk_int {c['op']} {bits} {zlit(c['x'])} {zlit(c['y'])} {lst}"
+    if c["fn"] == "extract":
+        return f"chk_extract {c['f']} {zlit(c['d'])} {impls[0]}"
+    if c["fn"] == "trunc":
+        return f"chk_trunc {c['u']} {zlit(c['d'])} {impls[0]}"
+    return f"chk_add {c['u']} {zlit(c['v'])} {zlit(c['d'])} {impls[0]}"
+
+
+def eval_kernel_cases(units):
+    """units: [(harness case, [(judged case, [query idx])])] or guard cases. Returns (cases, impl_outs, eq, ok)"""
+    hcases = [u[0] for u in units]
+    if len(hcases) > 60:
+        from concurrent.futures import ThreadPoolExecutor
+        step = (len(hcases) + 5) // 6
+        chunks = [hcases[i:i + step] for i in range(0, len(hcases), step)]
+        with ThreadPoolExecutor(max_workers=6) as ex:
+            outs = [o for part in ex.map(lambda ch: vlib.run_harness("c29k", ch), chunks) for o in part]
+    else:
+        outs = vlib.run_harness("c29k", hcases)
+    cases, impls, terms = [], [], []
+    for (hc, judged), o in zip(units, outs):
+        if hc["mode"] == "guard":
+            c = judged[0][0]
+            cases.append(c)
+            impls.append(o)
+            terms.append(case_term(c, o.get("guard") if isinstance(o, dict) and "guard" in o else None))
+            continue
+        res = o.get("results") if isinstance(o, dict) else None
+        for c, idx in judged:
+            rs = [res[i] for i in idx] if res else [o]
+            cases.append(c)
+            impls.append(rs)
+            terms.append(case_term(c, [obs_of(r) for r in rs]) if res else None)
+    good = [i for i, t in enumerate(terms) if t is not None]
+    shard = max(150, (len(good) + 5) // 6)                  # at most 6 coqc processes
+    vals = vlib.coq_eval_list(REQ, "", [terms[i] for i in good], "c29k", shard=shard)
+    eq, ok = [False] * len(cases), [False] * len(cases)
+    for i, v in zip(good, vals):
+        eq[i], ok[i] = v[0] == 1, v[1] == 1
+    return cases, impls, eq, ok, terms
+
+
+def join_chain_cases():
+    """no model (the score is not observable): join chains of 2..14 relations over an empty and over tiny tables, with and
+    without a filter (the `+ 1500` branch), must not panic"""
+    units = []
+    for rows in ([], [[1, 1]], [[1, 1], [2, 2], [2, 3]]):
+        table = {"name": "r", "cols": [["k", "i64"], ["v", "i64"]], "rows": rows}
+        qs = []
+        for n in range(2, 15):
+            chain = "SELECT count(*) FROM r AS j0" + "".join(f" JOIN r AS j{i} ON j{i}.k = j{i - 1}.k" for i in range(1, n))
+            qs.append(chain)
+            qs.append(chain + " WHERE j0.v > 0 AND j1.v < 5")
+        units.append({"mode": "sql", "tables": [table], "queries": qs})
+    return units
+
+
+def kernels(ctx, proved):
+    rng = ctx.rng
+    t0 = time.time()
+    units = []
+    gs = guard_strings(rng, ctx.n(400, 4000))
+    for s in gs:
+        units.append(({"mode": "guard", "s": s}, [({"kernel": "guard", "s": s}, [])]))
+    n_pairs = {}
+    extra = 0 if proved else 300                             # a proof no longer checks: search harder
+    for bits in (64, 32):
+        prs = int_operands(rng, bits, ctx.n(60, 1500) + extra, not ctx.quick)
+        n_pairs[bits] = len(prs)
+        for x, y in prs:
+            units.append(int_unit(bits, x, y))
+    dvals = date_values(rng, ctx.n(60, 3000) + extra)
+    for d in dvals:
+        units.append(date_unit(rng, d))
+    cases, impls, eq, ok, terms = eval_kernel_cases(units)
+    unusable = [i for i, t in enumerate(terms) if t is None]
+    # a guard-mode timeout is a hang of the parser on a statement the guard let through: a finding with its input
+    for i in unusable[:3]:
+        o = impls[i]
+        hang = isinstance(o, dict) and o.get("timeout")
+        ctx.violation({"kind": "parser did not return within 10 s" if hang else "harness gave no usable answer", "case": cases[i],
+                       "impl_output": o}, found_input=bool(hang))
+    keep = [i for i, t in enumerate(terms) if t is not None]
+    jc, ji = [cases[i] for i in keep], [impls[i] for i in keep]
+    ctx.judge(jc, [eq[i] for i in keep], [ok[i] for i in keep], classify=lambda c: None, impl_outs=ji)
+    # join chains
+    junits = join_chain_cases()
+    jouts = vlib.run_harness("c29k", junits)
+    jstat = {"ok": 0, "err": 0, "panic": 0}
+    for u, o in zip(junits, jouts):
+        for q, r in zip(u["queries"], (o.get("results") or [{"panic": str(o)}] * len(u["queries"]))):
+            k = "panic" if "panic" in r else ("err" if "err" in r else "ok")
+            jstat[k] += 1
+            if k == "panic" and len(ctx.violations) < 6:
+                ctx.violation({"kind": "statement panic", "case": {"kernel": "join", "tables": u["tables"], "sqls": [q]}, "impl_output": r}, found_input=True)
+    by = {}
+    for c in jc:
+        key = c["kernel"] + (":" + c.get("kind", c.get("fn", "")) if c["kernel"] != "guard" else "")
+        by[key] = by.get(key, 0) + 1
+    outcome = {}
+    for c, o in zip(jc, ji):
+        if c["kernel"] == "guard":
+            k = "guard:" + ("fired" if o.get("guard") else "passed:" + str(o.get("parse")))
+            outcome[k] = outcome.get(k, 0) + 1
+        else:
+            for r in o:
+                k = c["kernel"] + ":" + (obs_of(r) or "?").strip("()").split(" ")[0]
+                outcome[k] = outcome.get(k, 0) + 1
+    distinct = len({json.dumps({k: v for k, v in c.items() if k not in ("tables", "sqls")}, sort_keys=True) for c in jc
+                    if not (c["kernel"] == "guard" and len(c["s"]) < 2)})
+    kc = ctx.cov.setdefault("kernel_correspondence", {})
+    kc.update({"judged_cases": len(jc), "statements": sum(len(u[0].get("queries", [1])) for u in units), "by_kernel": by, "impl_outcomes": outcome,
+               "impl_equals_model": sum(1 for i in keep if eq[i]), "distinct_nontrivial": distinct,
+               "guard_strings": len(gs), "guard_max_len": max(len(s) for s in gs), "int_pairs": n_pairs, "date32_values": len(dvals),
+               "join_chains": {"statements": sum(jstat.values()), "outcomes": jstat,
+                               "note": "estimate_relation_size_score is not observable; chains of 2..14 relations over an empty, a 1-row and a 3-row table, with and without a filter, must not panic"},
+               "wall_s": round(time.time() - t0, 1)})
+    shown = 0
+    for c, o in zip(jc, ji):
+        if c["kernel"] != "guard" and shown < 3 and (c["kernel"] == "date" or c.get("op") == 3):
+            ctx.sample({"case": {k: v for k, v in c.items() if k != "tables"}, "impl_output": [json.dumps(r)[:120] for r in o]})
+            shown += 1
+    return len(jc) + sum(jstat.values()), sum(1 for i in keep if eq[i]) + jstat["ok"] + jstat["err"], distinct
+
+
+def run(ctx):
+    proved = ctx.prove()
+    for m in ("c29", "c29k"):
+        ok, log = vlib.build_harness(m)
+        if not ok:
+            raise vlib.HarnessBuildError(log)
+    k_n, k_valid, k_distinct = kernels(ctx, proved)
+    if not proved and not ctx.violations:
+        ctx.proof_broken_violation(f"{k_n} kernel correspondence cases (guard strings, integer operand pairs, Date32 values), none "
+                                   "violates the executable specs")
+    s_n, s_valid, s_distinct = search(ctx)
+    ctx.cov["evaluations"] = k_n + s_n
+    ctx.cov["distinct_nontrivial"] = k_distinct + s_distinct
+    ctx.cov["traces_validated_against_impl"] = k_valid + s_valid
+    ctx.cov["input_distribution"] = {"kernel_correspondence": {k: ctx.cov["kernel_correspondence"][k] for k in
+                                                                ("by_kernel", "guard_strings", "int_pairs", "date32_values")},
+                                     "search": ctx.cov["search"]["input_distribution"]}
     return ctx.finish(
-        level="other",
-        rule="directed boundary statements (i64/i32 overflow, /0, %0, LIMIT/OFFSET u64 max, huge literals, casts, string and date "
-             "functions at extremes, unknown names, type mismatches, unsupported statements, odd Unicode incl. NUL) + 23 nesting/length "
-             "shapes at sizes up to 2000 parentheses / 500 nested subqueries, CASE, NOT / 5000-term chains and IN lists + random "
-             "grammar statements + character/token mutations of those; each through ExecutionContext::sql against 3 tables",
-        extra={"explanation": "Validation by search, not proof: no executable model expresses that a 75k-line program never unwinds, "
-                              "overflows its stack or hangs. Every statement runs in a subprocess on its own 8 MiB-stack thread under "
-                              "catch_unwind with a 10 s wall-clock limit; outcome classes are recorded; panic / timeout / abort are "
-                              "violations unless the statement's shape (nesting metric >= 100, or a call of abs) is a recorded class. "
-                              "The logic-level parts of C29 (overflow-freedom of modelled arithmetic sites, termination measures of "
-                              "modelled loops) are theorems of the properties that model those functions."},
-        assumptions=["the harness is a dev-profile build (integer overflow checks on): arithmetic-overflow panics found here wrap silently in a release build",
+        level="proof",
+        rule="PROOF part: guard strings (token soup of ( ) ' '' \" ` -- - newline, runs of 45..60 live parentheses with quoted / commented "
+             "ones inside, unterminated quotes and comments) -> parse_sql fired the guard or not vs the model; integer operand pairs "
+             "(16x16 edge grid per width incl. MIN, MAX, -1, 0, sqrt(MAX), plus random and near-boundary pairs) x {+,-,*,/,%,unary -,abs} "
+             "x statement forms (Int64/Int32 columns, CAST / unary-minus literals, folder-reachable literals, INT column with BIGINT "
+             "literal) -> value/NULL/error/panic vs k_op / lit_op; Date32 values (i32 extremes, both ends of chrono's range day by "
+             "day, leap days, random) x EXTRACT(YEAR|MONTH|DAY), DATE_TRUNC x 6 units, DATE_ADD x 4 units x counts up to i64 "
+             "extremes vs the model; join chains of 2..14 relations (no panic). distinct/non-trivial = distinct case parameters. "
+             "SEARCH part: regression corpus + directed boundary statements (i64/i32 overflow, /0, %0, LIMIT/OFFSET u64 max, huge "
+             "literals, casts, string and date functions at extremes, unknown names, type mismatches, unsupported statements, odd "
+             "Unicode incl. NUL) + 23 nesting/length shapes at sizes up to 2000 parentheses / 500 nested subqueries, CASE, NOT / "
+             "5000-term chains and IN lists + random grammar statements + character/token mutations of those; each through "
+             "ExecutionContext::sql against 3 tables",
+        extra={"level_note": "partial by nature: machine-checked theorems (31 pins in Props/C29.v) for the logic cores in which the recorded "
+                             "C29 defects lived, each tied to the code by correspondence; the rest of the property (no panic / abort / hang "
+                             "anywhere else) is validated by search only",
+               "explanation": "No executable model expresses that a 100k-line program never unwinds, overflows its stack or hangs. What is "
+                              "logic is modelled and proved for all inputs; what is not is searched: every statement runs in a subprocess on "
+                              "its own 8 MiB-stack thread under catch_unwind with a 10 s wall-clock limit; outcome classes are recorded; "
+                              "panic / timeout / abort are violations unless the statement's shape is a class recorded in known_findings.txt."},
+        assumptions=["sqlparser 0.62 parses (or rejects) in bounded time and stack every statement whose parenthesis depth, as computed by the "
+                     "guard's own lexical rules, is <= 47: an assumption about third-party code, validated only by the search part (nested "
+                     "CAST / parenthesis / subquery shapes at depth 47) — the theorems only say the guard computes that depth",
+                     "arrow-arith 58 numeric::{add,sub,mul,div,rem,neg} are the checked kernels transcribed in Model.v (add_checked ... "
+                     "div_checked, mod_wrapping, neg_checked) and chrono 0.4.45 from_num_days_from_ce_opt / checked_add_signed / "
+                     "checked_add_months / from_ymd_opt behave as transcribed (YEAR_DELTAS by closed form, month/day of an ordinal by "
+                     "cumulative month lengths): third-party code, modelled not verified, tied by the correspondence run",
+                     "`(n as f64).log2() as i32` lies in [floor(log2 n), floor(log2 n) + 1] for 1 <= n < 2^64 (IEEE-754 rounding of the "
+                     "conversion, libm log2 monotone, exact on powers of two and within 1 ulp); the score itself is not observable",
+                     "strings are modelled as lists of code points (Rust chars()); usize counters cannot wrap because they are bounded by the "
+                     "string length (theorem C29_guard_counters_bounded)",
+                     "the harness is a dev-profile build (integer overflow checks on): arithmetic-overflow panics found here wrap silently in a release build",
                      "a hang shorter than 10 s per statement is not a finding"])
 
 
 def replay(ctx, obj):
-    ok, log = vlib.build_harness("c29")
-    if not ok:
-        raise vlib.HarnessBuildError(log)
-    sql = (obj.get("case") or {}).get("sql", "")
-    o = run_batch(vlib.harness_bin("c29"), [(0, sql)])[0]
-    print("sql:", sql[:300]); print("outcome:", o)
-    return 1 if o["outcome"] in ("panic", "timeout", "abort") else 0
+    c = obj.get("case") or obj.get("first_differing_case") or {}
+    if "sql" in c:                                   # a statement of the search part
+        ok, log = vlib.build_harness("c29")
+        if not ok:
+            raise vlib.HarnessBuildError(log)
+        sql = c.get("sql", "")
+        o = run_batch(vlib.harness_bin("c29"), [(0, sql)])[0]
+        print("sql:", sql[:300]); print("outcome:", o)
+        return 1 if o["outcome"] in ("panic", "timeout", "abort") else 0
+    if c.get("kernel") == "guard":
+        unit = ({"mode": "guard", "s": c["s"]}, [(c, [])])
+    elif c.get("kernel") in ("int", "date", "join"):
+        unit = ({"mode": "sql", "tables": c["tables"], "queries": c["sqls"]}, [(c, list(range(len(c["sqls"]))))])
+    else:
+        print("nothing to replay in", list(obj)[:8])
+        return 1
+    if c.get("kernel") == "join":
+        o = vlib.run_harness("c29k", [unit[0]])[0]
+        print("impl_output:", json.dumps(o)[:600])
+        return 1 if any("panic" in r for r in o.get("results", [{"panic": 1}])) else 0
+    cases, impls, eq, ok, terms = eval_kernel_cases([unit])
+    print("case:", {k: v for k, v in c.items() if k != "tables"}); print("impl_output:", json.dumps(impls[0])[:600])
+    print("coq term:", terms[0]); print("impl_equals_model:", eq[0], "spec_ok:", ok[0])
+    return 0 if eq[0] and ok[0] else 1
